@@ -310,6 +310,26 @@ CHECKS['C06'] = dict(
          '(accepted => re-serialisable, same contents, fixed point) are '
          'covered by the bounded layer with the independent C03 generator.',
     design_ref='5/C06', technique=SCEN_TECH, note=SCEN_NOTE, thorough=True)
+CHECKS['C20'] = dict(
+    category='other',
+    text='Losslessness and termination for every input are reduced, via the '
+         'assumed contract of pygments\' RegexLexer driver loop, to two '
+         'obligations on every rule of the real token table (capturing '
+         'groups tile the match and each has an action; minimum match width '
+         '> 0), decided structurally on the parsed regular expressions with '
+         'the lexer\'s flags. JsonLexer/DiffLexer are assumed lossless. The '
+         'header-tagging half (no Error token, Name.Tag tokens = section '
+         'headers) is bounded only: lazy/lookahead matching semantics are '
+         'outside what the solvers decide.',
+    design_ref='5/C20',
+    technique='contract-based reduction: assumed driver-loop contract + '
+              'per-rule obligations decided by a structural decision '
+              'procedure on the parsed regexes of the real rule table; '
+              'witness strings replayed through the real lexer; bounded '
+              'random/writer-produced inputs for the header-tagging half',
+    note='other = every-input argument for losslessness/termination rests '
+         'on an assumed library contract and a structural (not SMT) decision '
+         'procedure; second half bounded.', thorough=True)
 
 NOT_YET = 'check not built yet (work in progress; see DESIGN.md section 5)'
 NA = {}
